@@ -69,6 +69,7 @@ CallVal(f, vs) ==
             [] f = "ABS"   -> IF n1 THEN N(Abs(vs[1].v)) ELSE Bad
             [] f = "MAX"   -> IF n2 THEN N(IF vs[1].v >= vs[2].v THEN vs[1].v ELSE vs[2].v) ELSE Bad
             [] f = "MIN"   -> IF n2 THEN N(IF vs[1].v <= vs[2].v THEN vs[1].v ELSE vs[2].v) ELSE Bad
+            [] f = "ROUND" -> IF n1 /\ Len(vs) = 1 THEN N(vs[1].v) ELSE Bad          \* integers only in this model
             [] f = "MOD"   -> IF n2 /\ vs[1].v >= 0 /\ vs[2].v > 0 THEN N(vs[1].v % vs[2].v) ELSE Bad
             [] f = "LEN"   -> IF Len(vs) = 1 /\ vs[1].t = "s" /\ LenOf(vs[1].v) > 0 THEN N(LenOf(vs[1].v)) ELSE Bad
             [] f = "CONCATENATE" -> IF Len(vs) = 2 THEN BinVal("&", vs[1], vs[2]) ELSE Bad
@@ -132,7 +133,19 @@ B1 == {Bin(op, x, y) : op \in {"<", "="}, x \in N1, y \in N0} \cup {Bin(op, x, y
 B2 == {Call("IF", <<c, a, b>>) : c \in {Bin("<", Num(2), Num(3)), Bin("=", Call("SUM", <<Num(1), Num(2)>>), Num(3))}, a \in {Call("SUM", <<Num(2), Num(3)>>), Num(2)}, b \in N0}
          \cup {Call(f, <<c, e>>) : f \in {"AND", "OR"}, c \in {Bin("<", Num(2), Num(3)), Bin("=", Call("POWER", <<Num(2), Num(2)>>), Num(4))}, e \in {Bin("<", Num(3), Num(2)), Bin("=", Call("CONCATENATE", <<Str("ab"), Str("cde")>>), Str("abcde"))}}
          \cup {Bin("*", Call("IF", <<Bin("<", Num(2), Num(3)), a, Num(1)>>), Num(3)) : a \in {Call("SUM", <<Num(2), Num(3)>>)}}
-All == N1 \cup N2 \cup S1 \cup S2 \cup B1 \cup B2
+\* a call whose migrated form is again a CALL (abs(..), max(..), ...) as an argument of a function whose migrated form is
+\* an OPERATOR application (SUM -> +, POWER -> ^), itself under an operator, a sign or another such function: the
+\* grouping decision is taken on the migrated text of the argument list, whatever its first token looks like
+Inner == {Call("ABS", <<Neg(Num(3))>>), Call("ABS", <<Num(2)>>), Call("MAX", <<Num(2), Num(3)>>), Call("MIN", <<Num(2), Ref>>),
+          Call("MOD", <<Num(3), Num(2)>>), Call("ROUND", <<Num(3)>>), Call("LEN", <<Str("ab")>>), Call("SUM", <<Num(2), Num(3)>>)}
+Wrapped == {Call(f, <<a, b>>) : f \in {"SUM", "POWER"}, a \in Inner, b \in {Num(2)}}
+             \cup {Call(f, <<b, a>>) : f \in {"SUM", "POWER"}, a \in Inner, b \in {Num(2)}}
+N3 == {Bin(op, w, z) : op \in NumOps, w \in Wrapped, z \in {Num(2), Num(3)}} \cup {Bin(op, z, w) : op \in NumOps, w \in Wrapped, z \in {Num(2), Num(3)}}
+        \cup {Neg(w) : w \in Wrapped} \cup {Call(f, <<w, z>>) : f \in {"SUM", "POWER", "MAX"}, w \in Wrapped, z \in {Num(2)}}
+        \cup {Call(f, <<z, w>>) : f \in {"SUM", "POWER", "MIN"}, w \in Wrapped, z \in {Num(2)}}
+        \cup {Bin(op, w, z) : op \in {"<", "="}, w \in Wrapped, z \in {Num(5)}}
+        \cup {Bin("&", w, Str("ab")) : w \in Wrapped}
+All == N1 \cup N2 \cup N3 \cup S1 \cup S2 \cup B1 \cup B2
 
 \* ---- string literals: doubled quotes are the only escape of the legacy grammar; a backslash is an ordinary character ----
 LitChars == {"q", "b", "c", "n"}      \* quote, backslash, some character, the letter n (so that backslash-n is in the space)
